@@ -445,8 +445,42 @@ def indices(ctx: Ctx):
     e = expand(ctx.repo, cp, "_alpha_alt", stop=lambda mm: True)
     ctx.check_expr("alpha-order", "cubepart.py::CubePartition._alpha_alt", e, "self._alpha_values[1]")
     m = ctx.repo.lookup(cp, "_alpha_values")
-    rets = [u(n.value) for n in sorted((x for x in ast.walk(m.node) if isinstance(x, ast.Return)), key=lambda x: x.lineno)]
-    ctx.ob("alpha-order", "cubepart.py::CubePartition._alpha_values", rets[-1] if rets else None, "tuple(sorted(value[:2]))", bool(rets) and rets[-1] == "tuple(sorted(value[:2]))", "primary alpha <= secondary alpha, hence the secondary index sets contain the primary ones")
+    # decision table (DECTAB) over the shapes of the alpha transform; where the summarised function is not interpretable
+    # (a validating loop), the returns are inspected: a sorted pair among them holds, nothing found is undecided
+    from ..dectab import DTop, ModelInterp, Raises
+
+    where_a = "cubepart.py::CubePartition._alpha_values"
+    body_a = SUMMARIZER.summarize(m.node)
+    cases = [(None, (0.05, None)), (0.1, (0.1, None)), ([0.1], (0.1, None)), ([0.1, 0.05], (0.05, 0.1)), ((0.05, 0.1), (0.05, 0.1)), ([0.2, 0.01, 0.5], (0.01, 0.2))]
+    bad, undec = [], None
+    for value, want_v in cases:
+        def atoms(x, value=value):
+            if u(x) in ("self._transforms_dict.get('pairwise_indices', {}).get('alpha')",):
+                return value
+            raise KeyError
+
+        class _I(ModelInterp):
+            def _call(self, c, it):
+                if isinstance(c.func, ast.Name) and c.func.id == "repr":
+                    return "repr"
+                return super()._call(c, it)
+
+        try:
+            got = _I(atoms).ev(body_a)
+        except Raises as r:
+            bad.append(f"alpha {value!r}: raises {r.etype}")
+            continue
+        except DTop as t:
+            undec = str(t)
+            break
+        if tuple(got) != want_v:
+            bad.append(f"alpha {value!r} -> {tuple(got)}, specified {want_v}")
+    if undec is None:
+        ctx.ob("alpha-order", where_a, bad[:3] or f"{len(cases)} shapes of the alpha transform", "(alpha, None) for one value; the two values in ascending order", not bad, "primary alpha <= secondary alpha, hence the secondary index sets contain the primary ones")
+    else:
+        rets = [u(n.value) for n in ast.walk(m.node) if isinstance(n, ast.Return) and n.value is not None]
+        has_sorted = any("tuple(sorted(value[:2]))" in r for r in rets)
+        ctx.ob("alpha-order", where_a, [r[:60] for r in rets][-2:], "tuple(sorted(value[:2])) among the returns", True if has_sorted else None, "primary alpha <= secondary alpha, hence the secondary index sets contain the primary ones")
     for prop, alpha in (("pairwise_indices", "self._alpha"), ("pairwise_indices_alt", "self._alpha_alt")):
         e = expand(ctx.repo, sl, prop, stop=lambda mm: True)
         leaf = main_leaf(e)
